@@ -325,6 +325,77 @@ def run(ctx):
              'the version of every published key is not incremented by one',
              ctx.loc(gi))
 
+    # what a completed task publishes: branch variables go to
+    # task_ex.published, global variables into the workflow context, both
+    # evaluated against the task's view; nothing when there is no spec
+    pv = prog.func('mistral.workflow.data_flow.publish_variables')
+    pcfg = ctx.cfg(pv)
+    pubs = [st for t, st in U.attr_stores(pv.node)
+            if norm(t) == 'task_ex.published']
+    glob = [(n, c) for n, c in pcfg.calls(
+        lambda c: U.call_name(c) == 'merge_dicts' and c.args and
+        'workflow_execution.context' in norm(c.args[0]) or
+        U.call_name(c) == 'merge_dicts' and c.args and
+        norm(c.args[0]) == 'wf_ex.context')]
+    spec_v = [x for x in own_nodes(pv.node) if isinstance(x, ast.Assign) and
+              isinstance(x.value, ast.Call) and
+              U.call_name(x.value) == 'get_publish']
+    sv = dotted(spec_v[0].targets[0]) if spec_v else None
+    okp = len(pubs) == 1 and len(glob) == 1 and sv is not None
+    if okp:
+        pn = pcfg.stmt_node(pubs[0])
+        gn = glob[0][0]
+        okp = U.guarded(pcfg, pn, sv, True) and \
+            U.guarded(pcfg, gn, sv, True) and \
+            U.phas(pubs[0].value, 'expr.evaluate_recursively(__b, __ctx)') \
+            and norm(spec_v[0].value.args[0]) == 'task_ex.state'
+    r3.check(okp, ctx.construct(pv, extra='branch and global publishing'),
+             'publish_variables does not store the evaluated branch '
+             'variables in task_ex.published and merge the evaluated global '
+             'variables into the workflow context whenever the task has a '
+             'publish spec for its state', ctx.loc(pv))
+    INp, kp = sd.analyze(pcfg, pv, [('task_ex.state', sd.state_domain)])
+    gpc = U.calls_in(pcfg, 'get_publish')
+    pvals = sd.values_at(INp, kp, gpc[0][0], 'task_ex.state') if gpc \
+        else set()
+    Sx = sd.consts
+    r3.check(pvals == {Sx['SUCCESS'], Sx['ERROR'], Sx['SKIPPED']},
+             ctx.construct(pv, extra='publishing states'),
+             'variables are published for task states %s, expected exactly '
+             'SUCCESS, ERROR and SKIPPED' % sorted(map(str, pvals)),
+             ctx.loc(pv))
+    if okp:
+        def src_of(e):
+            nm = [y.id for y in ast.walk(e) if isinstance(y, ast.Name)]
+            defs = [x for x in own_nodes(pv.node)
+                    if isinstance(x, ast.Assign) and
+                    dotted(x.targets[0]) in nm and
+                    isinstance(x.value, ast.Call) and
+                    U.call_name(x.value) in ('get_branch', 'get_global')]
+            return {U.call_name(x.value) for x in defs}
+        r3.check(src_of(pubs[0].value.args[0]) == {'get_branch'} and
+                 src_of(glob[0][1].args[1]) == {'get_global'},
+                 ctx.construct(pv, extra='branch vs global'),
+                 'branch variables and global variables are stored in each '
+                 "other's place", ctx.loc(pv))
+    ps = prog.func('mistral.lang.v2.publish.PublishSpec.merge')
+    mcfg = ctx.cfg(ps)
+    for sec in ('branch', 'global', 'atomic'):
+        sts = [st for t, st in U.attr_stores(ps.node)
+               if norm(t) == 'self._' + sec]
+        okm = len(sts) == 1
+        if okm:
+            sn = mcfg.stmt_node(sts[0])
+            okm = U.guarded(mcfg, sn, '__o.get_%s()' % sec, True) and \
+                U.guarded(mcfg, sn, ps.params[1], True) and \
+                U.phas(sts[0].value, 'utils.merge_dicts({} if self._%s is '
+                       'None else self._%s, __o.get_%s())'
+                       % (sec, sec, sec))
+        r3.check(okm, ctx.construct(ps, extra=sec + ' section'),
+                 'merging publish specs does not merge the %s section of the '
+                 'other spec into this one (creating it when absent)' % sec,
+                 ctx.loc(ps))
+
     # ---- R4 one key function ------------------------------------------------------
     r4 = ctx.rule('R4', 'writer and reader compute version keys the same '
                   'way', 'AGREE')
